@@ -638,6 +638,11 @@ def _run_layer_hook(world, lname, hook, inherited=False):
         calls = world.__dict__.setdefault('hook_calls', {})
         calls[(lname, hook)] = calls.get((lname, hook), 0) + 1
         beh = rest if calls[(lname, hook)] == int(k) else 'ok'
+    if hook == 'setUp' and 'streams' not in world.__dict__:
+        # the stream objects that were there when the first layer of this
+        # process was set up (in a layer subprocess these are not the
+        # interpreter's own)
+        world.streams = (sys.stdout, sys.stderr)
     if hook in ('setUp', 'tearDown'):
         emit('layer.%s.enter' % hook, layer=lname, inh=inherited)
         world.point('layer.%s:%s' % (hook, lname))
@@ -657,11 +662,14 @@ def _run_layer_hook(world, lname, hook, inherited=False):
             raise
         emit('layer.%s.exit' % hook, layer=lname, ok=True)
     else:
+        st = world.__dict__.get('streams')
         emit('layer.%s' % hook, layer=lname, inh=inherited,
              out_is_orig=(sys.stdout is ORIG_STDOUT)
              if ORIG_STDOUT is not None else None,
              err_is_orig=(sys.stderr is ORIG_STDERR)
-             if ORIG_STDERR is not None else None)
+             if ORIG_STDERR is not None else None,
+             out_same=(sys.stdout is st[0]) if st else None,
+             err_same=(sys.stderr is st[1]) if st else None)
         run_actions(actions, 'body', 'layer:%s.%s' % (lname, hook))
         if beh.startswith('raise:'):
             raise make_exc(beh[6:], 'layer %s %s' % (lname, hook))
